@@ -484,6 +484,31 @@ def np_den(e):
     raise common.Infra(t)
 
 
+def np_denF(e, x):
+    """pointwise construction for trees with non-linear leaves (Lean: `denF`): (A±B)(x) = A(x)±B(x),
+    (cA)(x) = c A(x), (A/c)(x) = A(x)/c, (A(B))(x) = A(B(x)); linear sub-expressions through np_den"""
+    if not has_nonlin(e):
+        return np_den(e) @ x
+    t = e["t"]
+    if t == "nonlin":
+        Gm = decs(e["G"]).reshape(size(e["outsh"]), size(e["insh"]))
+        return (Gm @ x) ** 2
+    if t in ("add", "sub"):
+        u, v = np_denF(e["a"], x), np_denF(e["b"], x)
+        if u.shape != v.shape:
+            raise ValueError("shape")
+        return u + v if t == "add" else u - v
+    if t == "neg":
+        return -np_denF(e["a"], x)
+    if t in ("smulL", "smulR"):
+        return dec(e["c"]["v"]) * np_denF(e["a"], x)
+    if t == "sdiv":
+        return np_denF(e["a"], x) / dec(e["c"]["v"])
+    if t in ("comp", "matmul"):
+        return np_denF(e["a"], np_denF(e["b"], x))
+    raise NotLinear()
+
+
 def _bdiag(d, insh):
     """matrix of x -> d * x (numpy broadcasting) for x of shape insh"""
     n = int(np.prod(insh))
@@ -701,6 +726,18 @@ def oracle(env):
                                 fails["adjoint_value"] = {"y": [str(complex(v)) for v in yv], "adj_returned": [str(complex(v)) for v in z],
                                                           "conjugate_transpose_of_construction": [str(complex(v)) for v in want]}
                                 break
+        # trees with non-linear leaves: the pointwise construction (C05_run_eq_denF)
+        if has_nonlin(e) and not ({"shape", "evaluation_raised", "matrix_shape"} & set(fails)) and (kind_uniform(e) or not uses_adjoint(e)):
+            tol = tol_of(e) * 10
+            for x, y in zip(xs, outs):
+                try:
+                    want = np_denF(e, x)
+                except (ValueError, ZeroDivisionError, NotLinear):
+                    break
+                if want.shape != y.shape or not vec_close(y, want, tol, max(4, n * m)):
+                    fails["value"] = {"x": [str(complex(z)) for z in x], "operator_returned": [str(complex(z)) for z in y],
+                                      "pointwise_construction": [str(complex(z)) for z in want]}
+                    break
         return fails or None
 
     return run
